@@ -172,7 +172,7 @@ def run_unit(unit, work, tier='quick'):
         decls = {}
         ctext = open(os.path.join(VERIF, 'contracts', unit['contracts'])).read()
         for _ in range(6):
-            if 'FPX(' not in re.sub(r'/\*.*?\*/', '', ctext, flags=re.S):
+            if not re.search(r'FPXA?\(', re.sub(r'/\*.*?\*/', '', ctext, flags=re.S)):
                 break
             ctext = fpx.expand(ctext, decls)
         with open(os.path.join(d, 'fpx_decls.h'), 'w') as f:
